@@ -64,7 +64,15 @@ impl PPCfg {
 }
 
 pub fn cost_model(v: u8, salt: i64) -> Vec<i64> {
-    (0..(10 + v as i64)).map(|i| 1000 * (v as i64 + 1) + i * 7 - 3 + salt).collect()
+    // the salt also picks the length: short stand-ins, the sizes the ledger defines per language
+    // (166 / 185 / 297), and models with trailing parameters a node may report beyond those
+    let len: i64 = match salt / 11 {
+        2 => [166, 185, 297][v as usize % 3],
+        3 => [170, 190, 302][v as usize % 3],
+        4 => 400,
+        _ => 10 + v as i64,
+    };
+    (0..len).map(|i| 1000 * (v as i64 + 1) + i * 7 - 3 + salt).collect()
 }
 
 pub fn make_compiler(pp: &PPCfg) -> RealCompiler {
@@ -190,7 +198,7 @@ pub fn resolve_once(
     comp.ops.borrow_mut().clear();
     comp.compiles = 0;
     comp.overrun = false;
-    comp.round_limit = Some(max_rounds.max(3) + 2 + 3);
+    comp.round_limit = Some(max_rounds.max(3).saturating_add(2 + 3));
     let store = SimStore::new(w);
     let any = AnyTir::V1Beta0(tx.clone());
     let (end, stats) = {
@@ -690,7 +698,7 @@ pub fn check_fee(
     d: &crate::txread::DTx,
     ctx: &str,
 ) -> FeeFacts {
-    let cap = max_rounds.max(3) + 2;
+    let cap = max_rounds.max(3).saturating_add(2);
     let oks: Vec<(&RoundRec, &Compiled)> = res_rounds
         .iter()
         .filter_map(|r| r.out.as_ref().ok().map(|c| (r, c)))
@@ -853,6 +861,7 @@ pub fn check_echo(
     tx: &TxSpec,
     args: &ArgMap,
     d: &crate::txread::DTx,
+    pp: &PPCfg,
     ctx: &str,
 ) {
     // mint: per token, sum(mints) - sum(burns)
@@ -909,8 +918,18 @@ pub fn check_echo(
     }
     if let Some((since, until)) = &tx.validity {
         for (which, e, got) in [("since", since, d.start), ("until", until, d.ttl)] {
-            if let Some(SlotExpr::Q(q)) = e {
-                if let Some(v) = q_val(q, args) {
+            let exact = match e {
+                Some(SlotExpr::Q(q)) => q_val(q, args),
+                // the slot of a time is cursor.slot + (time - cursor.time) / 1000 in whole slots;
+                // negative times are refused by the compiler before it gets that far
+                Some(SlotExpr::FromTime(q)) => q_val(q, args).filter(|t| *t >= 0).and_then(|t| {
+                    let diff = t.checked_sub(pp.time as i128)?;
+                    (pp.slot as i128).checked_add(diff / 1000)
+                }),
+                _ => None,
+            };
+            {
+                if let Some(v) = exact {
                     if got != Some(v) {
                         rep.violate(
                             "C02",
